@@ -926,7 +926,7 @@ fn c10_hist(input: &Input, obs: &mut Obs) -> Result<(), Fail> {
                 target_high = true;
                 cycles += 1;
             }
-            let wts: [u32; 9] = if target_high { [14, 2, 1, 4, 2, 3, 2, 3, 1] } else { [3, 10, 3, 3, 1, 4, 2, 2, 1] };
+            let wts: [u32; 10] = if target_high { [14, 2, 1, 4, 2, 3, 2, 3, 1, 2] } else { [3, 10, 3, 3, 1, 4, 2, 2, 1, 2] };
             let op = s.weighted(&wts);
             // with a read-shut client around, the number of held connections is not known exactly
             let mut burst_close = accepted.iter().any(|c| maybe(&w, *c));
@@ -985,6 +985,15 @@ fn c10_hist(input: &Input, obs: &mut Obs) -> Result<(), Fail> {
                     if !live.is_empty() {
                         let c = live[s.below(live.len())];
                         w.read_client(c, usize::MAX);
+                    }
+                }
+                9 => {
+                    // the application flushes instead of polling. Only when every open client's unread
+                    // output is small (flush is allowed to give up on a connection whose buffer is full)
+                    let small = accepted.iter().all(|c| !alive(&w, *c) || w.clients[*c].expected.iter().map(|e| e.bytes.len()).sum::<usize>() < w.clients[*c].recv.len() + 30_000);
+                    if small {
+                        w.flush();
+                        obs.label("flush_outgoing_writes");
                     }
                 }
                 8 => {
@@ -1180,7 +1189,11 @@ fn c10_micro(input: &Input, obs: &mut Obs) -> Result<(), Fail> {
         let nops = s.range(10, 70);
         for _ in 0..nops {
             let live: Vec<usize> = (0..next_slot).filter(|c| unrefused_open(&w, *c)).collect();
-            match s.weighted(&[10, 6, 5, 8, 14, 3, 2]) {
+            match s.weighted(&[10, 6, 5, 8, 14, 3, 2, 2]) {
+                7 => {
+                    // responses here are tiny, so flushing can never hit a full socket buffer
+                    w.flush();
+                }
                 0 => {
                     if next_slot < nslots {
                         w.connect(next_slot);
@@ -1977,6 +1990,35 @@ fn c18_kill(input: &Input, obs: &mut Obs) -> Result<(), Fail> {
     }
     let mut nontrivial_points = 0u64;
     let mut evals = 0u64;
+    // the shutdown may also have been requested before the switch was handed to the server
+    if s.chance(24) {
+        KILL_PRESIGNALLED.with(|c| c.set(true));
+        let mut w = World::new(16, true, obs.want_render).map_err(|e| Fail::new("harness-world", e))?;
+        let mut next_slot = 0;
+        let mut e = extra_seed;
+        for i in 0..6 {
+            if !w.epoll_ready() {
+                return Err(wfail("C18", "blocks", format!("kill switch signalled before it was registered; before requests() call #{} the epoll descriptor is not readable: the call would block", i + 1), &w));
+            }
+            match w.poll() {
+                PollRes::Err(ref x) if x == "ShutdownEvent" => {}
+                other => {
+                    return Err(wfail("C18", "not-shutdown:presignalled", format!("kill switch signalled before it was registered; requests() call #{} returned {:?} instead of ShutdownEvent", i + 1, other), &w));
+                }
+            }
+            e = e.wrapping_mul(1664525).wrapping_add(1013904223);
+            if (e >> 24) % 2 == 0 && next_slot < 12 {
+                w.connect(next_slot);
+                if (e >> 16) % 2 == 0 {
+                    w.send_raw(next_slot, b"GET /x HTTP/1.1\r\n\r\n");
+                    w.clients[next_slot].dirty = true;
+                }
+                next_slot += 1;
+            }
+        }
+        obs.label("kill_switch_signalled_before_registration");
+        evals += 1;
+    }
     // kill at every position of the history
     for p in 0..=ops.len() {
         let mut w = World::new(16, true, obs.want_render && p == ops.len() / 2).map_err(|e| Fail::new("harness-world", e))?;
